@@ -203,7 +203,7 @@ impl Property for C01 {
         let text = format!("enr:{}", b64::encode(&w.bytes));
         let mut sig_only_reject = false;
         let mut accepted = false;
-        for kt in ALL_KEY_TYPES {
+        for kt in crate::refmodel::record::key_types_in_order(crate::case::case_hash(&w.bytes)) {
             let want = ref_decode_exact(&w.bytes, kt);
             let got = libio::decode(kt, &w.bytes);
             let got_txt = libio::parse_text(kt, &text);
